@@ -18,7 +18,9 @@ import (
 //   - every promise-visible effect (a Promise API call, a call of a resolving function, an async call, an await, and
 //     every exit of a function that was entered from Go: return / throw / falling off the end) is preceded by the host
 //     call B(); between B() and the next host call the tick hook does not raise interrupts. Z() is B() at the end of
-//     the synchronous part of a macrotask (everything after it in the same macrotask is promise jobs).
+//     the synchronous part of a macrotask (everything after it in the same macrotask is promise jobs);
+//   - the synchronous part of a client task or of a timer callback may end with an uncaught exception (ltail): the
+//     outermost call then returns an *Exception, and the jobs queued so far still run before it returns.
 
 // ---- values --------------------------------------------------------------------------------------------------
 
@@ -133,6 +135,7 @@ type lop struct {
 	ms     int
 	key    int
 	body   []*lop
+	tail   ltail // opSetTimeout: how the callback ends
 	g      int
 	fn     int
 }
@@ -157,6 +160,21 @@ type lasync struct {
 	body    []lastmt
 }
 
+// How the synchronous part of a macrotask (client task, timer callback) ends.
+const (
+	tailNone    = iota // returns normally
+	tailThrow          // throw <value>
+	tailGetter         // an accessor read at the top level throws
+	tailTypeErr        // the VM raises a TypeError (null.x)
+	tailRefErr         // the VM raises a ReferenceError (call of an undeclared name)
+	tailNewErr         // throw new RangeError(...)
+)
+
+type ltail struct {
+	kind, id int
+	val      lval
+}
+
 type lgoIntent struct {
 	rej bool
 	val lval
@@ -164,6 +182,7 @@ type lgoIntent struct {
 
 type lprog struct {
 	tasks    [][]*lop
+	tails    []ltail // per client task
 	thens    []*lthenable
 	asyncs   []*lasync
 	nGo      int
@@ -418,6 +437,20 @@ func (g *lgen) genExec() []lact {
 	return acts
 }
 
+// genTail: 0 is "returns normally".
+func (g *lgen) genTail() ltail {
+	W := g.W
+	switch W.Draw(9) {
+	case 5, 6:
+		return ltail{kind: tailThrow, val: g.simpleVal()}
+	case 7:
+		return ltail{kind: tailGetter, id: g.newID('x'), val: g.simpleVal()}
+	case 8:
+		return ltail{kind: tailTypeErr + W.Draw(3)}
+	}
+	return ltail{}
+}
+
 func (g *lgen) genOp(depth int, nestedMenu bool) *lop {
 	W := g.W
 	total := 0
@@ -529,6 +562,7 @@ func (g *lgen) genOp(depth int, nestedMenu bool) *lop {
 			g.nested++
 			o.body = append(o.body, g.genOp(depth+1, true))
 		}
+		o.tail = g.genTail()
 	case opClearTimeout:
 		o.key = W.Draw(g.p.nTimers)
 	case opGoAsync:
@@ -562,6 +596,7 @@ func genLoopProgram(W *core.Track, hazard bool) *lprog {
 			ops = append(ops, g.genOp(0, false))
 		}
 		p.tasks = append(p.tasks, ops)
+		p.tails = append(p.tails, g.genTail())
 	}
 	for i := 0; i < p.nGo; i++ {
 		var pl [2]lgoIntent
@@ -737,7 +772,7 @@ func (r *lrender) op(o *lop) {
 		r.w("setTimeout(function(){")
 		r.ind++
 		r.ops(o.body)
-		r.w(" Z(); }, %d, %d);", o.ms, o.key)
+		r.w(" %s }, %d, %d);", r.tail(o.tail), o.ms, o.key)
 		r.ind--
 	case opClearTimeout:
 		r.w("CT(%d);", o.key)
@@ -750,6 +785,23 @@ func (r *lrender) op(o *lop) {
 	case opLog:
 		r.w("L(%d);", o.id)
 	}
+}
+
+// tail renders the end of the synchronous part of a macrotask. Z() is the last host call before control leaves it.
+func (r *lrender) tail(t ltail) string {
+	switch t.kind {
+	case tailThrow:
+		return fmt.Sprintf("Z(); throw %s;", r.val(t.val))
+	case tailGetter:
+		return fmt.Sprintf("({get x(){ L(%d); Z(); throw %s; }}).x;", t.id, r.val(t.val))
+	case tailTypeErr:
+		return "Z(); null.x;"
+	case tailRefErr:
+		return "Z(); noSuchFunction();"
+	case tailNewErr:
+		return "Z(); throw new RangeError(\"boom\");"
+	}
+	return "Z();"
 }
 
 func (r *lrender) async(a *lasync) {
@@ -796,7 +848,7 @@ func renderLoopProgram(p *lprog) string {
 		r.ops(ops)
 		r.ind--
 		r.nl()
-		r.w("Z(); }")
+		r.w("%s }", r.tail(p.tails[i]))
 	}
 	r.sb.WriteByte('\n')
 	return r.sb.String()
